@@ -13,8 +13,16 @@ using namespace c06;
 const char* property_id() { return "C06"; }
 unsigned case_timeout_s() { return 1800; }
 
-enum Fam { F_HLL4, F_HLL6, F_HLL8, F_HLL_UNION, F_HLL_UNION_MIXED, F_N };
-static const char* FAM_NAME[] = {"hll4", "hll6", "hll8", "hll_union", "hll_union_mixed_lgk"};
+// F_RAW + 3*order + relation: union programs mixing raw items fed directly to hll_union::update with sketch operands.
+//   order:    0 sketch -> raw,  1 raw -> sketch,  2 sketch -> raw -> sketch
+//   relation: 0 operand two steps finer than the union (lg_max_k = lg_k; a first operand is down-sampled and its HIP kept),
+//             1 operand lg_k = union lg_max_k = lg_k,  2 operand lg_k coarser than the union (lg_max_k = lg_k + 2)
+// odd trials call get_estimate() between the steps, even trials do not.
+enum Fam { F_HLL4, F_HLL6, F_HLL8, F_HLL_UNION, F_HLL_UNION_MIXED, F_RAW, F_N = F_RAW + 9 };
+static const char* FAM_NAME[] = {"hll4", "hll6", "hll8", "hll_union", "hll_union_mixed_lgk",
+  "hll_union_sketch_raw_finer", "hll_union_sketch_raw_equal", "hll_union_sketch_raw_coarser",
+  "hll_union_raw_sketch_finer", "hll_union_raw_sketch_equal", "hll_union_raw_sketch_coarser",
+  "hll_union_sketch_raw_sketch_finer", "hll_union_sketch_raw_sketch_equal", "hll_union_sketch_raw_sketch_coarser"};
 static const target_hll_type TYPES[] = {HLL_4, HLL_6, HLL_8};
 
 static std::vector<Cell> build_cells(bool thorough) {
@@ -24,9 +32,15 @@ static std::vector<Cell> build_cells(bool thorough) {
   if (!thorough) cfgs = {{4, 300, NMULTS - 1}, {6, 300, NMULTS - 1}, {9, 200, NMULTS - 1}, {11, 200, NMULTS - 3}};
   else cfgs = {{4, 3000, NMULTS - 1}, {5, 3000, NMULTS - 1}, {6, 3000, NMULTS - 1}, {7, 3000, NMULTS - 1}, {8, 3000, NMULTS - 1}, {9, 3000, NMULTS - 1},
                {10, 2000, NMULTS - 1}, {11, 1500, NMULTS - 1}, {12, 1000, NMULTS - 1}, {13, 800, NMULTS - 2}, {14, 600, NMULTS - 3}};
+  // the nine raw-item union programs run on a thinner grid
+  std::vector<Cfg> raw_cfgs;
+  if (!thorough) raw_cfgs = {{6, 300, NMULTS - 1}, {10, 200, NMULTS - 3}};
+  else raw_cfgs = {{5, 3000, NMULTS - 1}, {8, 3000, NMULTS - 1}, {11, 1500, NMULTS - 1}, {13, 800, NMULTS - 3}};
+  static const bool RAW_MULT[NMULTS] = {false, true, false, true, false, true, false, true, true, false, true};   // k/8, k, 3k, 8k, 16k, 64k
   for (int f = 0; f < F_N; ++f)
-    for (auto& c : cfgs)
+    for (auto& c : (f >= F_RAW ? raw_cfgs : cfgs))
       for (int mi = 0; mi <= c.max_mi; ++mi) {
+        if (f >= F_RAW && !RAW_MULT[mi]) continue;
         Cell x; x.fam = f; x.lg_k = c.lg_k; x.mi = mi; x.trials = c.trials; x.n = cardinality(c.lg_k, mi);
         x.cost = static_cast<double>(x.n) * x.trials * (f >= F_HLL_UNION ? 1.3 : 1.0) + 3000.0 * x.trials;
         cells.push_back(x);
@@ -41,7 +55,7 @@ void final_report() {}
 
 static const double K26 = 67108864.0;
 
-static Trial observe(const hll_sketch& s, uint64_t n, const std::string& fam, const std::string& ctx) {
+template<typename S> static Trial observe(const S& s, uint64_t n, const std::string& fam, const std::string& ctx) {
   Trial t;
   t.c = read_chain(s);
   check_chain(t.c, fam, ctx);
@@ -73,6 +87,39 @@ void run_case(uint64_t idx, Rng& r) {
       hll_sketch s(cell.lg_k, TYPES[cell.fam]);
       for (uint64_t i = 0; i < n; ++i) s.update(key(i));
       tr.push_back(observe(s, n, fam, ctx));
+    } else if (cell.fam >= F_RAW) {
+      const int order = (cell.fam - F_RAW) / 3, rel = (cell.fam - F_RAW) % 3;
+      const uint8_t op_lg = static_cast<uint8_t>(cell.lg_k + (rel == 0 ? 2 : 0)), max_lg = static_cast<uint8_t>(cell.lg_k + (rel == 2 ? 2 : 0));
+      const bool est_between = t & 1;
+      hll_union u(max_lg);
+      // the raw items are the same 64-bit keys, offered through three overloads that denote the same item
+      auto raw = [&](uint64_t from, uint64_t to) {
+        for (uint64_t i = from; i < to; ++i) {
+          const uint64_t kx = key(i);
+          switch ((t / 2) % 3) {
+            case 0: u.update(kx); break;
+            case 1: u.update(static_cast<int64_t>(kx)); break;
+            default: { uint8_t b[8]; for (int j = 0; j < 8; ++j) b[j] = static_cast<uint8_t>(kx >> (8 * j)); u.update(b, 8); }
+          }
+        }
+      };
+      auto sketch = [&](uint64_t from, uint64_t to, int ty) {
+        hll_sketch sk(op_lg, TYPES[ty % 3]);
+        for (uint64_t i = from; i < to; ++i) sk.update(key(i));
+        if (t & 4) u.update(std::move(sk)); else u.update(sk);
+      };
+      auto between = [&] { if (est_between) { const double e = u.get_estimate(); VF_CHECK(std::isfinite(e) && e >= 0, fam + "|intermediate-estimate|not-finite-or-negative", ctx); } };
+      // 20% overlaps between consecutive steps; the union of all steps is keys [0, n)
+      if (order == 0) { sketch(0, n / 2, t); between(); raw(n * 2 / 5, n); }
+      else if (order == 1) { raw(0, n / 2); between(); sketch(n * 2 / 5, n, t); }
+      else { sketch(0, n * 2 / 5, t); between(); raw(n * 3 / 10, n * 7 / 10); between(); sketch(n * 3 / 5, n, t + 1); }
+      // the union object itself is read out (get_estimate / bounds of hll_union), then compared with its result
+      tr.push_back(observe(u, n, fam, ctx));
+      const hll_sketch res = u.get_result(TYPES[(t / 9) % 3]);
+      const Chain rc = read_chain(res);
+      VF_CHECK(rc.est == tr.back().c.est && rc.lb[1] == tr.back().c.lb[1] && rc.ub[3] == tr.back().c.ub[3], fam + "|union-object-vs-result|estimate-or-bounds-differ",
+               ctx + " union: " + tr.back().c.to_string() + " result: " + rc.to_string());
+      if (u.get_current_mode() == HLL && u.is_out_of_order_flag()) any_ooo_union = true;
     } else {
       // A gets keys [0, 0.6n), B gets keys [0.4n, n): 20% overlap; target types rotate with the trial
       const uint64_t a_end = n - n * 2 / 5, b_begin = n * 2 / 5;
